@@ -177,7 +177,38 @@ def h_store(ctx, mods, shape):
     ctx.observe('seq', '>'.join(seq))
 
 
-HARNESSES = {'store': h_store}
+def h_deep(ctx, mods, shape):
+    """many packets parked for one pair (and a second pair interleaved) come out complete and in arrival order"""
+    hh = mods.hidden_helpers
+    store = hh._AdbPacketStore()
+    a0, a1 = ctx.int('id', 0, U32), ctx.int('id', 0, U32)
+    b0, b1 = ctx.int('id', 0, U32), ctx.int('id', 0, U32)
+    ctx.assume(core.sor(a0 != b0, a1 != b1))
+    n = shape['n']
+    for i in range(n):
+        store.put(a0, a1, WRTE, b'a%d' % i)
+        if i % 3 == 0:
+            store.put(b0, b1, WRTE, b'b%d' % i)
+    store.put(a0, a1, CLSE, b'')
+    got = []
+    for i in range(n + 1):
+        r = store.find(a0, a1)
+        if r is None:
+            break
+        got.append(store.get(r[0], r[1]))
+    ctx.check([g[3] for g in got] == [b'a%d' % i for i in range(n)] + [b''], 'all %d parked packets of a pair are retrievable, in arrival order, followed by its CLSE' % n, detail=str([g[3] for g in got][:5]))
+    ctx.check(store.find(a0, a1) is None, 'retrieving the CLSE forgot the pair')
+    ctx.check(len(store) == 1, 'the other pair is still pending')
+    gb = []
+    while store.find(b0, b1) is not None:
+        gb.append(store.get(b0, b1)[3])
+        if len(gb) > n:
+            break
+    ctx.check(gb == [b'b%d' % i for i in range(0, n, 3)], 'the interleaved pair kept its own packets in order')
+    ctx.observe('n', len(got))
+
+
+HARNESSES = {'store': h_store, 'deep': h_deep}
 
 
 RED = ['find', 'findz', 'findz_w0', 'findz_w1', 'find_ww', 'get', 'clear_entry', 'put_clse', 'put_again', 'len']
@@ -205,4 +236,6 @@ def shapes(tier, seed):
                 for d in RED:
                     out.append({'h': 'store', 'preload': 0, 'letters': RED, 'prefix': ['put_new', b, c, d], 'length': 5, 'max_paths': 1000000})
     out.append({'h': 'store', 'preload': 0, 'letters': LETTERS, 'prefix': ['put_new', 'findz'], 'length': 3, 'cmds': True})
+    for n in ((5, 40, 300) if q else (5, 40, 300, 2000)):
+        out.append({'h': 'deep', 'n': n})
     return out
